@@ -36,7 +36,7 @@ def u_cast_ray(dirkind='general'):
     o = [R_('ox'), R_('oy')]
     if dirkind == 'general':
         d = [R_('dx'), R_('dy')]
-        base = bounded(*d)
+        base = bounded(*d) + [d[0] != 0, d[1] != 0]       # zero components: the vertical / horizontal / zero units
     elif dirkind == 'vertical':
         d = [rat(0), R_('dy')]
         base = bounded(d[1]) + [d[1] != 0]
@@ -76,7 +76,7 @@ def u_cast_ray(dirkind='general'):
     return Unit(f'cast_ray[{dirkind}]', 'polyline2::cast_ray', make, post, base=base, inputs=inp,
                 replay=('cast_ray', lambda mm: {'boxes': [[[mm[f'b{k}minx'], mm[f'b{k}miny']], [mm[f'b{k}maxx'], mm[f'b{k}maxy']]] for k in range(4)], 'origin': [mm['ox'], mm['oy']],
                                                 'dir': [mm.get('dx', 0.0), mm.get('dy', 0.0)], 't': mm['t']}),
-                bounds={'boxes': 'four independent boxes, mins <= maxs, |coords| <= 1e3', 'ray': f'origin |coords| <= 1e3, direction {dirkind} (|components| <= 1e3)', 'witness parameter': '|t| <= 1e6'},
+                bounds={'boxes': 'four independent boxes, mins <= maxs, |coords| <= 1e3', 'ray': f'origin |coords| <= 1e3, direction {dirkind} (|components| <= 1e3' + (', both non-zero)' if dirkind == 'general' else ')'), 'witness parameter': '|t| <= 1e6'},
                 assumptions=['f64 as exact reals: reciprocal overflow for sub-normal direction components is outside engine M (see the K harness / known findings)',
                              'AutoSimd lanes are independent (simba contract)'], timeout_ms=20000)
 
